@@ -80,7 +80,7 @@ func collectTemplates(p *packages.Package) []*tmplSite {
 			}
 		}
 	}
-	type env map[types.Object][]ast.Expr // parameter -> argument expression(s) (several for a variadic parameter)
+	type env map[types.Object][]ast.Expr       // parameter -> argument expression(s) (several for a variadic parameter)
 	envFd := map[*ast.FuncDecl]*ast.FuncDecl{} // builder being instantiated -> the function its arguments were written in
 	var subst func(e ast.Expr, ev env) ast.Expr
 	subst = func(e ast.Expr, ev env) ast.Expr {
